@@ -19,7 +19,7 @@ from ..vloop import Horizon
 
 LEVEL = "model_checking"
 RULE = (
-    "LOOP machines = cycle kind {always<->always, action raising its own trigger (a fresh event, or the very event object being handled), onDone re-completing its own state, "
+    "LOOP machines = cycle kind {always<->always, action raising its own trigger (a fresh event, the very event object being handled, or a fresh event while a sibling region re-arms an after-timer on every link), onDone re-completing its own state, "
     "done.invoke of an instantly returning service re-entering its state, self-enqueueing pure / choose / "
     "enqueueActions} x maxIterations M x natural length L in {M-1, M, M+1, inf} x trigger {start(), event} x engine; "
     "REPEAT machines = M+2 finite chains of M-1 self-raised events each in ONE interpreter, started through send / send_events / a mix / a re-arming after-timer (none may be cut: the bound is per macrostep); "
@@ -36,7 +36,7 @@ ASSUMPTIONS = [
     "termination = returns before 60*M recorder entries / 20000 loop iterations; a SIGALRM backstop names the machine",
 ]
 ENGINES = ("sync", "async")
-KINDS = ("always", "raise", "raise_same", "ondone", "invoke", "pure", "choose", "enqueue", "mixed_raise", "mixed_done", "mixed_sendto")
+KINDS = ("always", "raise", "raise_same", "raise_purge", "ondone", "invoke", "pure", "choose", "enqueue", "mixed_raise", "mixed_done", "mixed_sendto")
 INF = 10 ** 9
 
 
@@ -80,6 +80,21 @@ def make(kind: str, M: int, L: int, trigger: str) -> Dict[str, Any]:
             "entry": [A.raise_("LOOP")],
             "states": {"a": {}},
             "on": {"LOOP": {"actions": step + [A.choose([{"guard": "lt", "actions": [A.raise_(lambda a: a["event"])]}])]}},
+        }
+    elif kind == "raise_purge":
+        # every link of the chain also re-arms a watchdog timer in a sibling region (executed AFTER the raising
+        # transition: 'feeder' sorts before 'watchdog'): leaving the timed state purges its stale notifications from the
+        # queue while the next link is already queued there - the link must keep its place in the chain
+        loop = {
+            "type": "parallel",
+            "entry": [A.raise_("LOOP")],
+            "states": {
+                "feeder": {"initial": "run", "states": {"run": {
+                    "on": {"LOOP": {"actions": step + [A.choose([{"guard": "lt", "actions": [A.raise_("LOOP")]}])]}}}}},
+                "watchdog": {"initial": "armed", "states": {
+                    "armed": {"after": {"600000": "expired"}, "on": {"LOOP": {"target": "armed", "reenter": True}}},
+                    "expired": {}}},
+            },
         }
     elif kind in ("mixed_raise", "mixed_sendto"):
         # the self-delivery happens in the settle phase: event -> always -> entry raises event
@@ -229,7 +244,7 @@ def run_unit(unit):
             _, kind, M, L, trig = unit
             spec = make(kind, M, L, trig)
             h = Harness(spec["cfg"], with_plugin=True, extra_guards={"lt": lt_guard}, services=spec["services"],
-                        extra_markers=["mk:step"], budget=60 * max(M, 1) + 200)
+                        extra_markers=["mk:step"], budget=60 * max(M, 1) + 200, threads=(kind == "raise_purge"))
             d = h.driver(engine)
             if engine == "async":
                 d.max_iters = 20000
